@@ -270,9 +270,12 @@ def transmit_and_check(ctx, ch, get_resp, kind, mimo, rng, tag, pos, pathloss=No
         ctx.ev("output-length", y.shape == want.shape, cls=kind + ":freq",
                detail=d(got=y.shape, want=want.shape))
         if y.shape == want.shape:
+            # H[k] sums one term per tap (D of them, which may exceed fft and
+            # cancel): the rounding error scales with sum_d |h[d]| |x|, not with |H x|
+            hsum = float(np.max(np.sum(np.abs(h), axis=0))) if h.size else 0.0
             ctx.within("freq-domain-per-block", fro(y - want),
-                       256 * EPS * fft * (fro(want) + 1e-300), "%s:%s" % (kind, skind),
-                       d(fft=fft, selection=sel_repr(sel)))
+                       256 * EPS * max(fft, h.shape[0]) * (fro(want) + hsum * fro(x) + 1e-300),
+                       "%s:%s" % (kind, skind), d(fft=fft, selection=sel_repr(sel)))
         ctx.sig(kind, mimo, tag["generator"], "freq", skind, switched, min(pos, 2))
 
 
@@ -394,6 +397,7 @@ def case_multiuser(ctx, rng, idx):
         worst_ok = True
         for o in range(nout):
             want = None
+            scale_parts = 0.0
             for i in range(nin):
                 r_idx, t_idx = (i, o) if sw else (o, i)
                 resp = ch.get_last_impulse_response(r_idx, t_idx)
@@ -403,6 +407,7 @@ def case_multiuser(ctx, rng, idx):
                 else:
                     part, _ = freq_oracle(h, x[i], fft, sel, sw)
                 want = part if want is None else want + part
+                scale_parts = scale_parts + fro(part)
             got = np.asarray(out[o])
             if got.shape != want.shape:
                 ctx.ev("multiuser-sum-of-links", False, cls="shape",
@@ -410,7 +415,7 @@ def case_multiuser(ctx, rng, idx):
                 worst_ok = False
                 continue
             ctx.within("multiuser-sum-of-links", fro(got - want),
-                       256 * EPS * (D + 8) * nin * (fro(want) + 1e-300),
+                       256 * EPS * (D + 8) * nin * (fro(want) + scale_parts + 1e-300),
                        "%s:%s" % (tag["kind"], domain), d(receiver=o))
         ctx.sig(tag["kind"], (nrx, ntx), ant, gkind, domain, sw, pl is not None)
     ctx.sample(tag["kind"], tag)
